@@ -150,6 +150,7 @@ class Src:
 
 LOOP_RE = re.compile(r'\b(for|while|loop)\b')
 TAG_RE = re.compile(r'^@([A-Z0-9,]+)\|\s*')
+ATTR_RE = re.compile(r'^@~([A-Z0-9,]*)\|\s*')
 
 
 def split_tag(s):
@@ -158,6 +159,15 @@ def split_tag(s):
     if mo:
         return tuple(mo.group(1).split(',')), s[mo.end():]
     return (), s
+
+
+def split_attr(s):
+    """'@~C02,C04| text': the clause is kept in EVERY profile, but its failure counts as a violation only of the listed
+    properties; for the others it is a failed *support* obligation (the proof does not go through: undecided)."""
+    mo = ATTR_RE.match(s)
+    if mo:
+        return tuple(x for x in mo.group(1).split(',') if x), s[mo.end():]
+    return None, s
 
 
 class Clauses:
@@ -172,11 +182,12 @@ class Clauses:
 
     def wrap(self, fn, kind, raw):
         """returns wrapped text or None when filtered out by the profile"""
+        attr, raw = split_attr(raw)
         tags, text = split_tag(raw)
         if not self.keep(tags):
             return None
         k = len(self.items)
-        self.items.append({'id': k, 'fn': fn, 'kind': kind, 'tags': list(tags), 'text': ' '.join(text.split())[:300]})
+        self.items.append({'id': k, 'fn': fn, 'kind': kind, 'tags': list(tags), 'attr': (list(attr) if attr is not None else None), 'text': ' '.join(text.split())[:300]})
         return '/*#%d*/%s/*#/%d*/' % (k, text, k)
 
 
@@ -312,6 +323,33 @@ def annotate_fn(text, ann, clauses, fname):
         w = W('hint', proof)
         if w:
             ins.append((end, 0, '\n' + w + '\n'))
+    # block_end: (needle, occurrence, proof): insert at the END of the innermost block that contains the statement starting
+    # with `needle` -- the hint then sees the state after every statement of that block, whatever their order
+    for needle, occ, proof in (ann.get('block_end') or []):
+        pos = -1
+        start = ob
+        for _ in range(occ + 1):
+            pos = text.find(needle, start)
+            if pos < 0:
+                raise LostAnchor('%s: block anchor %r #%d not found' % (fname, needle, occ))
+            start = pos + 1
+        d = 0
+        open_at = None
+        for j in range(pos, ob, -1):
+            ch = m[j]
+            if ch == '}':
+                d += 1
+            elif ch == '{':
+                if d == 0:
+                    open_at = j
+                    break
+                d -= 1
+        if open_at is None:
+            raise LostAnchor('%s: block anchor %r #%d has no enclosing block' % (fname, needle, occ))
+        close_at = match_brace(m, open_at)
+        w = W('hint', proof)
+        if w:
+            ins.append((close_at, 0, '\n' + w + '\n'))
     if ann.get('at_end'):
         ends = ann['at_end'] if isinstance(ann['at_end'], (list, tuple)) else [ann['at_end']]
         for raw in reversed(ends):     # equal positions are emitted in reverse insertion order
